@@ -138,6 +138,7 @@ def c14_task(arg):
     # stacking: rex's own stack of all episodes, and Graph.stack of every ordered pair / triple
     combos = []
     idx = list(range(len(graphs)))
+    combos += [(i,) for i in idx]  # a stack of one episode is still a stack: batched, length 1, [0] gives the episode back
     for r in (2, 3):
         combos += list(itertools.permutations(idx, r))
     combos = combos[: arg.get("max_stacks", 12)]
@@ -148,6 +149,10 @@ def c14_task(arg):
         out["instances"] += 1
         if len(sg) != len(c):
             err(tag + ":len", c, len(sg))
+        shp = onp.asarray(next(iter(sg.vertices.values())).seq).shape
+        if len(shp) != 2 or shp[0] != len(c):
+            err(tag + ":not-batched", c, shp)
+            continue
         for pos, i in enumerate(c):
             out["transitions"] += 1
             gi = sg[pos]
